@@ -151,6 +151,7 @@ func (fs *Store) AddMessage(m storage.Message) (id string, err error) {
 	// The new index no longer lists the messages evicted by the cap: dispose of them.
 	for _, old := range evicted {
 		fs.extHost.Events.AfterMessageDeleted.Emit(message.MakeMetadata(old))
+		verifhook.Crash("add.evicted.before-remove", old.rawPath())
 		if err := os.Remove(old.rawPath()); err != nil {
 			log.Error().Str("module", "storage").Str("mailbox", mb.name).Str("id", old.ID()).
 				Err(err).Msg("Unable to delete message")
